@@ -77,11 +77,13 @@ func verifRunWith(vals map[string]any, f func()) (outcome []string) {
 }
 
 func TestVerifC11NativeSweep(t *testing.T) {
-	verifSweep(t, "VerifC11Open", VerifC11Open, []verifDim{{"pre", 3}, {"world", 5}, {"broken", 2}, {"verifyState", 3},
+	// quick-tier choice space (VERIF_TIER unset); the thorough tier only crosses "unloadable
+	// directory" with every shape
+	verifSweep(t, "VerifC11Open", VerifC11Open, []verifDim{{"pre", 3}, {"world", 6}, {"verifyState", 3},
 		{"crcBad", 2}, {"breakAfterVerify", 2}, {"id", 3}, {"release", 2}})
-	verifSweep(t, "VerifC11ReadOnly", VerifC11ReadOnly, []verifDim{{"method", vMCount}, {"pre", 3}, {"world", 5}, {"broken", 2},
+	verifSweep(t, "VerifC11ReadOnly", VerifC11ReadOnly, []verifDim{{"method", vMCount}, {"pre", 3}, {"world", 6},
 		{"verifyState", 3}, {"crcBad", 2}})
-	verifSweep(t, "VerifC11Reap", VerifC11Reap, []verifDim{{"pre", 3}, {"world", len(verifReapWorlds)}, {"broken", 2},
+	verifSweep(t, "VerifC11Reap", VerifC11Reap, []verifDim{{"pre", 3}, {"world", len(verifReapWorlds) + 1},
 		{"verifyState", 3}, {"crcBad", 2}})
 	verifSweep(t, "VerifC11ReapLoop", VerifC11ReapLoop, []verifDim{{"thresholdAbove", 2}, {"disabled", 2}, {"holder", 3}})
 }
